@@ -1,9 +1,164 @@
-//! group `reader` — stub (not built yet).
-#![allow(unused)]
+//! group `reader` — C15: src/message/reader.rs through the public `Reader` API.
 use crate::common::*;
+use crate::dns;
+use quandary::message::Reader;
 
-pub fn run(_op: &str, _a: &[&str]) -> Option<String> {
-    None
+fn b(x: bool) -> &'static str {
+    if x { "1" } else { "0" }
 }
 
-pub fn gen(_rng: &mut Rng, _thorough: bool, _em: &mut Emitter) {}
+/// the cursor is private: `message_to_cursor().len()` exposes it
+fn cur(r: &Reader) -> usize {
+    r.message_to_cursor().len()
+}
+
+fn step(r: &mut Reader, op: &str) -> String {
+    match op {
+        "hdr" => format!(
+            "ok {} {} {} {} {} {} {} {} {} {} {} {}@{}",
+            r.id(), b(r.qr()), u8::from(r.opcode()), b(r.aa()), b(r.tc()), b(r.rd()), b(r.ra()),
+            u8::from(r.rcode()), r.qdcount(), r.ancount(), r.nscount(), r.arcount(), cur(r)
+        ),
+        "rq" => match r.read_question() {
+            Ok(q) => format!("ok {} {} {}@{}", hex(q.qname.wire_repr()), u16::from(q.qtype), u16::from(q.qclass), cur(r)),
+            Err(e) => format!("err:{:?}@{}", e, cur(r)),
+        },
+        "sq" => match r.skip_question() {
+            Ok(()) => format!("ok @{}", cur(r)),
+            Err(e) => format!("err:{:?}@{}", e, cur(r)),
+        },
+        "rr" => match r.read_rr() {
+            Ok(x) => format!("ok {} {} {} {} {}@{}", hex(x.owner.wire_repr()), u16::from(x.rr_type), u16::from(x.class),
+                             u32::from(x.ttl), hex(x.rdata.octets()), cur(r)),
+            Err(e) => format!("err:{:?}@{}", e, cur(r)),
+        },
+        "sr" => match r.skip_rr() {
+            Ok(()) => format!("ok @{}", cur(r)),
+            Err(e) => format!("err:{:?}@{}", e, cur(r)),
+        },
+        "pk" => {
+            let s = match r.peek_rr() {
+                Ok(mut p) => {
+                    let own = match p.owner() {
+                        Ok(n) => hex(n.wire_repr()),
+                        Err(e) => format!("err:{:?}", e),
+                    };
+                    format!("ok {} {} {} {} {} {}", u16::from(p.rr_type()), u16::from(p.class()), u32::from(p.ttl()),
+                            p.raw_ttl(), p.rdlength(), own)
+                }
+                Err(e) => format!("err:{:?}", e),
+            };
+            format!("{}@{}", s, cur(r))
+        }
+        "pks" => {
+            let s = match r.peek_rr() {
+                Ok(p) => { p.skip(); "ok ".to_string() }
+                Err(e) => format!("err:{:?}", e),
+            };
+            format!("{}@{}", s, cur(r))
+        }
+        "pkp" => {
+            let s = match r.peek_rr() {
+                Ok(p) => match p.parse() {
+                    Ok(x) => format!("ok {} {} {} {} {}", hex(x.owner.wire_repr()), u16::from(x.rr_type), u16::from(x.class),
+                                     u32::from(x.ttl), hex(x.rdata.octets())),
+                    Err(e) => format!("err:{:?}", e),
+                },
+                Err(e) => format!("err:{:?}", e),
+            };
+            format!("{}@{}", s, cur(r))
+        }
+        "mark" => { r.mark(); format!("ok @{}", cur(r)) }
+        "rewind" => { r.rewind(); format!("ok @{}", cur(r)) }
+        "eom" => format!("ok {}@{}", b(r.at_eom()), cur(r)),
+        "mtc" => format!("ok {}@{}", r.message_to_cursor().len(), cur(r)),
+        _ => "bad-op".to_string(),
+    }
+}
+
+pub fn run(op: &str, a: &[&str]) -> Option<String> {
+    match (op, a) {
+        ("reader", [m, script]) => {
+            let Some(msg) = unhex(m) else { return Some("bad-op".into()) };
+            let mut r = match Reader::try_from(&msg[..]) {
+                Ok(r) => r,
+                Err(e) => return Some(format!("err:{:?}", e)),
+            };
+            let mut outs: Vec<String> = Vec::new();
+            let mut dead = false;
+            for o in script.split(';') {
+                if dead {
+                    // after a panic the reader is in whatever state it was left: keep going, the
+                    // model does the same (the state is unchanged in the model)
+                }
+                let before = cur(&r);
+                let res = std::panic::catch_unwind(std::panic::AssertUnwindSafe(|| step(&mut r, o)));
+                match res {
+                    Ok(s) => outs.push(s),
+                    Err(_) => { outs.push(format!("panic@{}", before)); dead = true; }
+                }
+            }
+            Some(outs.join(";"))
+        }
+        _ => None,
+    }
+}
+
+/// the natural script for a message: header, questions, records (mix of read/skip/peek), eom
+fn natural_script(rng: &mut Rng, msg: &[u8], with_rdata: bool) -> String {
+    let rd16 = |i: usize| -> usize { if msg.len() >= i + 2 { ((msg[i] as usize) << 8) | msg[i + 1] as usize } else { 0 } };
+    let mut ops: Vec<&str> = vec!["hdr"];
+    let qd = rd16(4).min(3);
+    for _ in 0..qd { ops.push(if rng.chance(2, 3) { "rq" } else { "sq" }); }
+    if rng.chance(1, 3) { ops.push("mark"); }
+    let n = (rd16(6) + rd16(8) + rd16(10)).min(8);
+    for _ in 0..n {
+        let choices: &[&str] = if with_rdata { &["rr", "sr", "pk", "pks", "pkp", "rr", "pkp"] } else { &["sr", "pk", "pks", "sr"] };
+        let o = *rng.pick(choices);
+        ops.push(o);
+        if o == "pk" { ops.push(if rng.chance(1, 2) { "pks" } else { "sr" }); }
+    }
+    ops.push("eom");
+    ops.push("mtc");
+    if rng.chance(1, 3) { ops.push("rewind"); ops.push("rq"); }
+    if rng.chance(1, 10) { ops.push("rewind"); }
+    ops.join(";")
+}
+
+/// `rr`/`pkp` need the RDATA model in the driver (C18); enabled once it is merged.
+pub const WITH_RDATA: bool = true;
+
+pub fn gen(rng: &mut Rng, thorough: bool, em: &mut Emitter) {
+    let n = if thorough { 150_000 } else { 12_000 };
+    for _ in 0..n {
+        let mut msg = dns::rand_message(rng);
+        let k = match rng.below(10) { 0..=4 => 0, 5..=7 => 1, _ => 2 };
+        for _ in 0..k { dns::mutate(rng, &mut msg); }
+        let script = if rng.chance(1, 8) {
+            // random script
+            let all: &[&str] = if WITH_RDATA {
+                &["hdr", "rq", "sq", "rr", "sr", "pk", "pks", "pkp", "mark", "rewind", "eom", "mtc"]
+            } else {
+                &["hdr", "rq", "sq", "sr", "pk", "pks", "mark", "rewind", "eom", "mtc"]
+            };
+            let len = rng.range(1, 8);
+            (0..len).map(|_| *rng.pick(all)).collect::<Vec<_>>().join(";")
+        } else {
+            natural_script(rng, &msg, WITH_RDATA)
+        };
+        let h = hex(&msg);
+        let r = run("reader", &[&h, &script]).unwrap();
+        em.emit(&format!("reader {} {}", h, script), &r);
+    }
+    // every truncation of a few valid messages (thorough: more)
+    let k = if thorough { 200 } else { 20 };
+    for _ in 0..k {
+        let msg = dns::rand_message(rng);
+        let script = natural_script(rng, &msg, WITH_RDATA);
+        for cut in 0..=msg.len() {
+            let h = hex(&msg[..cut]);
+            let r = run("reader", &[&h, &script]).unwrap();
+            em.emit(&format!("reader {} {}", h, script), &r);
+        }
+    }
+}
